@@ -249,7 +249,10 @@ class Parts(object):
                     yield {'g': g, 'o': {'objects': objs, 'ref': ref}}
         elif g == 'mi':
             for revs in ([], [('202001010000Z', 'r')], [('202002010000Z', 'r2'), ('202001010000Z', 'r1')],
-                         [('9901010000Z', 'old')], [('202003010000Z', 'c'), ('202002010000Z', 'b'), ('9912312359Z', 'a')]):
+                         [('9901010000Z', 'old')], [('202003010000Z', 'c'), ('202002010000Z', 'b'), ('9912312359Z', 'a')],
+                         # a change log kept oldest-first, and one in no order at all: reported as declared
+                         [('199801010000Z', 'a'), ('200201010000Z', 'b'), ('201101010000Z', 'c')],
+                         [('200201010000Z', 'b'), ('201101010000Z', 'c'), ('9801010000Z', 'a'), ('200501010000Z', 'd')]):
                 yield {'g': g, 'o': {'revs': revs}}
             # dates no calendar has (29 February 2021, hour 24): declared all the same
             yield {'g': g, 'o': {'revs': [('202102290000Z', 'leap'), ('202001010000Z', 'fine')]}, 'tag': 'impossible-date'}
